@@ -205,7 +205,9 @@ def minimise(prop: str, trace: Dict[str, Any], key: str, wall_limit: float, tier
             small = trace
         r = mod.execute(small)
         v = violation_matches(r, key)
-        assert v is not None
+        if v is None:
+            # not stable under re-execution in this (used) process: history-dependent
+            return {"trace": trace, "shrunk": False, "note": "violation is not stable under re-execution in a used worker"}
         return {
             "trace": small,
             "shrunk": True,
